@@ -13,6 +13,7 @@ package main
 // (and <=> naming.ValidateSnap(s)==nil when s has no '_').
 
 import (
+	"bytes"
 	"encoding/json"
 	"fmt"
 	"strings"
@@ -92,7 +93,7 @@ func TestVerifC24SunEnum(t *testing.T) {
 	L := verifkit.Size(5, 7)
 	e.Exhaustive(true)
 	e.Extra("exhaustive_alphabet", fmt.Sprintf("%q", verifc24.Alphabet))
-	e.Extra("exhaustive_max_len", L)
+	e.Extra("exhaustive_max_len", fmt.Sprint(L))
 	var evals, nt, acc int64
 	one := func(b []byte) {
 		s := string(b)
@@ -122,6 +123,9 @@ func TestVerifC24SunEnum(t *testing.T) {
 		for _, tpl := range templates {
 			for pos := 0; pos <= len(tpl); pos++ {
 				for b := 1; b < 256; b++ {
+					if len(tpl) > 8 && bytes.IndexByte(verifc24.Boundary, byte(b)) < 0 {
+						continue // long templates: class boundaries only
+					}
 					cands := []string{tpl[:pos] + string([]byte{byte(b)}) + tpl[pos:]}
 					if pos < len(tpl) {
 						cands = append(cands, tpl[:pos]+string([]byte{byte(b)})+tpl[pos+1:])
